@@ -368,6 +368,13 @@ fn cells(tier: Tier, seed: u64) -> Vec<Cell> {
             }
         }
     }
+    // small targets: fingerprints wider than 16 bits / many hash functions; few seeds, many probes
+    for &(p, probes) in &[(1e-4f64, 2_000_000u32), (1e-5, 10_000_000), (1e-6, 40_000_000)] {
+        let sd = tier.pick(4u32, 12u32);
+        mk(Kind::Cuckoo { bucketsize: 4, n: 1000, p }, sd, probes / sd, &mut v);
+        mk(Kind::Cuckoo { bucketsize: 8, n: 1000, p }, sd, probes / sd, &mut v);
+        mk(Kind::Bloom { n: 2000, p }, sd, probes / sd, &mut v);
+    }
     for &(q, r) in &[(4usize, 2usize), (6, 3), (8, 4), (10, 6), (12, 4), (3, 1), (5, 8)] {
         let cap = 1usize << q;
         for fill in [1, cap / 4, cap / 2, cap * 3 / 4, cap] {
@@ -399,7 +406,7 @@ pub fn checks() -> Vec<Box<dyn DynCheck>> {
 }
 
 pub fn run(ctx: &Ctx) {
-    ctx.set_rule("usability: generated (constructor, n, p) over the whole plane incl. p > 0.5 and n <= 3 (n in {1,2,3,10,50,1000} + random < 3000; p from fixed list + log-uniform down to 1e-9): constructor returns, Bloom k() >= 1 and m() >= 1, insert/query/len do not panic, all n distinct inserts are accepted (cuckoo: no Full) and found. rates: cells (constructor, n, p) / quotient (q, r, fill) measured over many seeded SipHash hashers x disjoint probe sets; per-seed false-positive fraction, mean tested against p (cuckoo), 1.3p (Bloom, n >= 50), len()*2^-(q+r) (quotient) at z = 6 with cluster-robust s.e. and a 4x confirmation with fresh seeds; Bloom len() RMS relative error <= 5% at partial fills for n >= 1000. Non-trivial: usability cases with p > 0.5 or n <= 3; rate cells with >= 100 expected false positives at the bound. Distinct = cell / case hash. evaluations = cases + probes.");
+    ctx.set_rule("usability: generated (constructor, n, p) over the whole plane incl. p > 0.5 and n <= 3 (n in {1,2,3,10,50,1000} + random < 3000; p from fixed list + log-uniform down to 1e-9): constructor returns, Bloom k() >= 1 and m() >= 1, insert/query/len do not panic, all n distinct inserts are accepted (cuckoo: no Full) and found. rates: cells (constructor, n, p) / quotient (q, r, fill) measured over many seeded SipHash hashers x disjoint probe sets (incl. cells with p = 1e-4, 1e-5, 1e-6 and 2e6..4e7 probes); per-seed false-positive fraction, mean tested against p (cuckoo), 1.3p (Bloom, n >= 50), len()*2^-(q+r) (quotient) at z = 6 with cluster-robust s.e. and a 4x confirmation with fresh seeds; Bloom len() RMS relative error <= 5% at partial fills for n >= 1000. Non-trivial: usability cases with p > 0.5 or n <= 3; rate cells with >= 100 expected false positives at the bound. Distinct = cell / case hash. evaluations = cases + probes.");
     ctx.assume("frequencies are over SipHash seeds (BuildHasherSeeded-equivalent) and random 64-bit keys; inserted keys are even, probes odd, hence disjoint");
     let rates = Rates { known: Known::load() };
     ctx.run_regressions(&[&Usability, &rates]);
